@@ -82,6 +82,9 @@ func prop(ind reg.Ind) engine.AnyProp {
 			cfg := ind.GenConfig(t, 0)
 			w := ind.Idle(cfg)
 			n := gen.GenLen(t, w, 260)
+			if engine.OncePerRun("C01-long/" + ind.Name) {
+				n = 1<<15 + 40 // every indicator once per run: beyond a 15-bit counter
+			}
 			b := gen.GenBars(t, n)
 			if rapid.IntRange(0, 11).Draw(t, "columns_unordered") == 5 {
 				b = gen.Unordered(t, b)
